@@ -159,3 +159,35 @@ Proof.
   intros H comb mt V. exists (mkDesc mt (empty_digest H) (-1)). split; [reflexivity|].
   exact (oci_push_prefix_negative_size H comb mt V).
 Qed.
+
+(* ------------------------------------------------------------------ FetchAll on the stores *)
+Lemma stream_serve_script c : stream (serve_script c) = c.
+Proof. destruct c; simpl; auto. rewrite app_nil_r. reflexivity. Qed.
+
+Lemma fetch_all_sound (H : str -> str -> str) fetched d b :
+  fetch_all H fetched d = (None, b) ->
+  fetched = Some b /\ matches_desc H (d_dg d) (d_sz d) b.
+Proof.
+  unfold fetch_all. destruct fetched as [c|]; [|discriminate].
+  destruct (read_all H false true (S (S (S (ev_weight (serve_script c))))) (mkBase (serve_script c) None) (d_dg d) (d_sz d))
+    as [[e buf] v] eqn:Er.
+  simpl. intro X; inversion X; subst.
+  apply read_all_sound in Er as (A & _ & C). specialize (C eq_refl). simpl in C.
+  rewrite stream_serve_script in C. subst. auto.
+Qed.
+
+(* FetchAll on every store returns data only when the store serves exactly the bytes the
+   descriptor names -- whatever the store holds (no reachability needed: FetchAll
+   verifies again) *)
+Lemma fetch_all_stores (H : str -> str -> str) :
+  (forall m d b, mem_fetch_all H m d = (None, b) -> mem_get m d = Some b /\ matches_desc H (d_dg d) (d_sz d) b) /\
+  (forall s d b, oci_fetch_all H s d = (None, b) -> oci_get s (d_dg d) = Some b /\ matches_desc H (d_dg d) (d_sz d) b) /\
+  (forall s name d b, file_fetch_all H s name d = (None, b) ->
+                      file_fetch s name d = Some b /\ matches_desc H (d_dg d) (d_sz d) b).
+Proof.
+  split; [|split].
+  - intros m d b E. exact (fetch_all_sound H _ d b E).
+  - intros s d b. unfold oci_fetch_all. destruct (negb (valid_digest (d_dg d))); [discriminate|].
+    intro E. exact (fetch_all_sound H _ d b E).
+  - intros s name d b E. exact (fetch_all_sound H _ d b E).
+Qed.
